@@ -9,7 +9,7 @@ import random
 
 META = {'explanation': 'exception classes and post-state validity are clauses of every public contract (proved); a bounded API fuzzer '
                        'covers entry points that take format strings or are not yet under contract.'}
-EXTRA_TASKS = ['fuzz']
+EXTRA_TASKS = ['fuzz', 'sequences']
 # properties whose public contracts are re-run as the deductive part of C20
 ALSO_PROPS = ['C03', 'C06', 'C15', 'C16', 'C04']
 
@@ -161,3 +161,137 @@ def fuzz(tier='quick', seed=0):
                          'shape': 'ConstBitStream/immutable', 'function': 'ConstBitStream.append / overwrite on an immutable receiver',
                          'bound': 'the calls of the fuzzer above that hit these two methods', 'evaluations': len(imm) or 1, 'failures': imm[:2]}],
             'summary': f'{evals} calls, {len(uniq)} distinct failures'}
+
+
+
+# ---- sequences of operations on one object, in both bit numberings, with the arguments watched ---------------------------------
+def _seq_case(seed, i):
+    """1-4 public operations in sequence on one object (30 % of the cases under lsb0): every call succeeds or raises a documented
+    exception; afterwards the object is valid, every *immutable* object involved (the receiver, and every Bits / ConstBitStream
+    that was passed as an argument at any earlier step) is unchanged, and the options are as before.  Deterministic in (seed, i)."""
+    import bitstring
+    from bitstring import Bits, BitArray, ConstBitStream, BitStream
+    rng = random.Random(seed * 1000003 + i)
+
+    def rbits(maxlen=24):
+        return ''.join(rng.choice('01') for _ in range(rng.randint(0, maxlen)))
+
+    def rint():
+        return rng.choice([0, 1, -1, 2, 7, 8, 9, -8, 100, -100, rng.randint(-40, 40)])
+
+    def rfmt():
+        return rng.choice(['uint:8', 'int:4', 'hex', 'bin', 'bits:3', 'ue', 'se', 'bool', 'float:32', 'bytes', 'pad:2', 'uint8, hex', 'uintle:16', '<H',
+                           'uint:0', 'bogus', 'hex:3', 'oct', 'bits', 'bin:0'])
+
+    def ppfmt():
+        one = lambda: rng.choice(['bin', 'hex', 'oct', 'bytes', 'uint', 'int', 'float']) + rng.choice(['', '', ':0', '0', '4', '8', ':8', '16', ':3', '12'])
+        return one() if rng.random() < 0.6 else one() + ', ' + one()
+
+    def bitsarg():
+        return rng.choice([Bits(bin=rbits()), ConstBitStream(bin=rbits()), BitArray(bin=rbits()), '0b' + rbits(6), '0x' + 'f' * rng.randint(0, 3), b'\x01'])
+
+    lsb0 = rng.random() < 0.3
+    opt0 = (bitstring.options.lsb0, bitstring.options.bytealigned, bitstring.options.mxfp_overflow)
+    cls = rng.choice([Bits, BitArray, ConstBitStream, BitStream])
+    s = rbits()
+    steps = []
+    watched = []          # (object, bin it must keep)
+    ok, why = True, ''
+    try:
+        bitstring.options.lsb0 = lsb0
+        o = cls(bin=s) if s else cls()
+        if hasattr(o, 'pos'):
+            o.pos = rng.randint(0, len(o))
+        if not isinstance(o, BitArray):
+            watched.append((o, o.bin))
+        for _ in range(rng.randint(1, 4)):
+            table = ['find', 'rfind', 'findall', 'split', 'cut', 'startswith', 'endswith', 'count', 'unpack', 'tobytes', 'copy', 'getitem', 'mul', 'lshift', 'and',
+                     'add', 'invert', 'contains', 'eq', 'pp', 'str', 'repr', 'iter', 'hash']
+            if isinstance(o, BitArray):
+                table += ['append', 'prepend', 'insert', 'overwrite', 'replace', 'reverse', 'rol', 'ror', 'set', 'invertbits', 'byteswap', 'clear', 'setitem',
+                          'setslice', 'delitem', 'ilshift', 'imul', 'iand', 'iadd', 'setprop', 'setprop', 'setprop', 'setprop']
+            if isinstance(o, ConstBitStream):
+                table += ['read', 'peek', 'readlist', 'peeklist', 'readto', 'bytealign', 'setpos']
+            op = rng.choice(table)
+            b = bitsarg()
+            if isinstance(b, (Bits,)) and not isinstance(b, BitArray):
+                watched.append((b, b.bin))
+            oi = lambda: rng.choice([None, rint()])
+
+            def watch(x):
+                watched.append((x, x.bin))
+                return x
+            calls = {
+                'find': lambda: o.find(b, oi(), oi(), rng.choice([None, True, False])), 'rfind': lambda: o.rfind(b, oi(), oi(), rng.choice([None, True, False])),
+                'findall': lambda: list(o.findall(b, oi(), oi(), oi(), rng.choice([None, True]))), 'split': lambda: list(o.split(b, oi(), oi(), oi())),
+                'cut': lambda: list(o.cut(rint(), oi(), oi(), oi())), 'startswith': lambda: o.startswith(b, oi(), oi()), 'endswith': lambda: o.endswith(b, oi(), oi()),
+                'count': lambda: o.count(rng.random() < 0.5), 'unpack': lambda: o.unpack(rfmt()), 'tobytes': lambda: o.tobytes(), 'copy': lambda: o.copy(),
+                'getitem': lambda: o[rng.choice([rint(), slice(oi(), oi(), rng.choice([None, 1, -1, 2, 0]))])], 'mul': lambda: o * rint(), 'lshift': lambda: o << rint(),
+                'and': lambda: o & b, 'add': lambda: o + b, 'invert': lambda: ~o, 'contains': lambda: b in o, 'eq': lambda: o == b,
+                'pp': lambda: o.pp(ppfmt(), width=rng.choice([-100, -1, 0, 1, 2, 3, 5, 20, 120]), sep=rng.choice([' ', '', '--']), show_offset=rng.random() < 0.5,
+                                   stream=io.StringIO()),
+                'str': lambda: str(o), 'repr': lambda: repr(o), 'iter': lambda: list(o), 'hash': lambda: hash(o) if not isinstance(o, BitArray) else None,
+                'append': lambda: o.append(b), 'prepend': lambda: o.prepend(b), 'insert': lambda: o.insert(b, rint()), 'overwrite': lambda: o.overwrite(b, rint()),
+                'replace': lambda: o.replace(b, bitsarg(), oi(), oi(), oi()), 'reverse': lambda: o.reverse(oi(), oi()), 'rol': lambda: o.rol(rint(), oi(), oi()),
+                'ror': lambda: o.ror(rint(), oi(), oi()), 'set': lambda: o.set(rng.random() < 0.5, rng.choice([rint(), [0], [-1, 2], range(0, 4)])),
+                'invertbits': lambda: o.invert(rng.choice([None, rint(), [0, -1]])), 'byteswap': lambda: o.byteswap(rint(), oi(), oi(), rng.random() < 0.5),
+                'clear': lambda: o.clear(), 'setitem': lambda: o.__setitem__(rint(), rng.choice([0, 1, 2, b])),
+                'setslice': lambda: o.__setitem__(slice(oi(), oi(), rng.choice([None, 1, -1, 2])), rng.choice([0, 1, 5, -1, b])),
+                'delitem': lambda: o.__delitem__(rng.choice([rint(), slice(oi(), oi(), rng.choice([None, 1, -1, 2]))])), 'ilshift': lambda: o.__ilshift__(rint()),
+                'imul': lambda: o.__imul__(rng.choice([0, 1, 2, -1])), 'iand': lambda: o.__iand__(b), 'iadd': lambda: o.__iadd__(b),
+                'setprop': lambda: (setattr(o, rng.choice(['bits', 'bits', 'bits16', 'bits']), watch(rng.choice([Bits, ConstBitStream])(bin=rbits())))
+                                    if rng.random() < 0.5 else
+                                    setattr(o, rng.choice(['bits', 'bin', 'hex', 'uint', 'int', 'bytes', 'bool', 'ue', 'uint8', 'bits16', 'float']),
+                                            rng.choice([b, b, '101', 'ff', rint(), b'ab', True, 1.5]))),
+                'read': lambda: o.read(rng.choice([rfmt(), rint()])), 'peek': lambda: o.peek(rng.choice([rfmt(), rint()])),
+                'readlist': lambda: o.readlist(rng.choice([rfmt(), [rint(), rfmt()]])), 'peeklist': lambda: o.peeklist(rng.choice([rfmt(), [rint(), rfmt()]])),
+                'readto': lambda: o.readto(b, rng.choice([None, True])), 'bytealign': lambda: o.bytealign(), 'setpos': lambda: setattr(o, 'pos', rint()),
+            }
+            # (ConstBitStream.append / overwrite on the immutable receiver are a recorded known finding, KF1: not exercised here)
+            steps.append(op)
+            try:
+                calls[op]()
+            except DOCUMENTED:
+                pass
+            except bitstring.Error:
+                pass
+            except Exception as e:
+                ok, why = False, f'step {len(steps)} ({op}) raised {type(e).__name__}: {e}'
+                break
+            if len(o) != len(o.bin):
+                ok, why = False, f'after {op}: len(s) != len(s.bin)'
+            elif hasattr(o, 'pos') and not (0 <= o.pos <= len(o)) and op != 'setprop':
+                ok, why = False, f'after {op}: pos {o.pos} outside [0, {len(o)}]'      # (setprop: recorded known finding KF2)
+            elif hasattr(o, 'pos') and not (0 <= o.pos <= len(o)):
+                o.pos = 0
+            for w, wb in watched:
+                if w.bin != wb:
+                    ok, why = False, f'after {op}: an immutable object involved earlier changed from {wb!r} to {w.bin!r}'
+            if (bitstring.options.lsb0, bitstring.options.bytealigned, bitstring.options.mxfp_overflow) != (lsb0, opt0[1], opt0[2]):
+                ok, why = False, f'after {op}: module options changed'
+            if not ok:
+                break
+    finally:
+        bitstring.options.lsb0, bitstring.options.bytealigned, bitstring.options.mxfp_overflow = opt0
+    return ok, f"{cls.__name__}(bin={s!r}) lsb0={lsb0} steps={steps}: {why}"
+
+
+def sequences(tier='quick', seed=0):
+    fails = []
+    N = 4000 if tier == 'quick' else 80000
+    seen = set()
+    for i in range(N):
+        ok, desc = _seq_case(seed, i)
+        if not ok:
+            key = desc.split(': ', 1)[1][:40]
+            if key in seen:
+                continue
+            seen.add(key)
+            fails.append({'call': desc[:260], 'python': "import sys\nsys.path.insert(0, '/verif')\nfrom props.C20 import _seq_case\n"
+                                                       f"ok, desc = _seq_case({seed}, {i})\nprint(desc)\nFAILS = not ok\n"})
+            if len(fails) > 8:
+                break
+    return {'id': 'C20.sequences', 'obligations': [], 'evaluations': N,
+            'bounded': [{'id': 'C20/public-api/sequences', 'qualname': 'public-api-sequences', 'shape': 'sequences', 'function': 'sequences of public operations on one object, msb0 and lsb0',
+                         'bound': f'{N} sequences of 1-4 operations, objects <= 24 bits, seed {seed}', 'evaluations': N, 'failures': fails[:6]}],
+            'summary': f'{N} sequences, {len(fails)} distinct failures'}
